@@ -42,6 +42,10 @@ def gen_cfg(rng, scratch_ok=True):
         cfg["penv"] = {k: rng.choice(["1", "true", "yes"]) for k in rng.sample(PLAUSIBLE_ENV, rng.randint(1, 3))}
     if rng.random() < 0.2:
         cfg["plog"] = "DEBUG"
+    if rng.random() < 0.2:
+        # the library is first imported lazily while the host application captures stdout / stderr (plugin loader, test runner),
+        # and that capture stream is closed afterwards
+        cfg["import_capture"] = rng.choice(["closed", "closed", "open"])
     return cfg
 
 
@@ -64,6 +68,8 @@ def child_env(cfg, extra=None):
         env[k] = v
     if cfg.get("plog"):
         env["VERIF_CHILD_LOG"] = cfg["plog"]
+    if cfg.get("import_capture"):
+        env["VERIF_IMPORT_CAPTURE"] = cfg["import_capture"]
     if extra:
         env.update(extra)
     return env
@@ -502,13 +508,28 @@ class CliWorld(ChainWorld):
     def _mk_km_doc(self, op):
         lib = self.lib
         pk = [self.keys.pub[i] for i in op["keys"] if i < len(self.keys)]
-        o = self.calls.raw("build_delegating_metadata", "key_mgr", {"pkg_mgr": {"pubkeys": pk, "threshold": op.get("t", 1)}}, op.get("version", 1),
-                           "2021-01-01T00:00:00Z", "2031-01-01T00:00:00Z")
+        dels = {"pkg_mgr": {"pubkeys": pk, "threshold": op.get("t", 1)}}
+        for role in op.get("also_delegates", []):
+            dels[role] = {"pubkeys": pk, "threshold": 1}       # a key_mgr document that (also) delegates a role of this name
+        if op.get("root_like"):
+            # a document declaring type root (any version), to be signed by whoever `signers` says, in raw mode
+            o = self.calls.raw("build_root_metadata", op.get("version", 1), pk, 1, pk, 1, "2021-01-01T00:00:00Z", "2031-01-01T00:00:00Z")
+        else:
+            o = self.calls.raw("build_delegating_metadata", "key_mgr", dels, op.get("version", 1), "2021-01-01T00:00:00Z", "2031-01-01T00:00:00Z")
         if not o.ok:
             return None
         doc = self.calls.raw("wrap_as_signable", o.value).value
         self._apply_mods(doc, op.get("mods", []))
         signers = self._head_km_signers() if op.get("signers") == "head" else op.get("signers", [])
+        if op.get("style") == "pgp":
+            # signed the way root key holders sign (OpenPGP entries) - not what the delegation verifier expects by default
+            for i in signers:
+                if i < len(self.keys) and isinstance(doc.get("signatures"), dict):
+                    try:
+                        self._pgp_sign(doc, i, "simgpg")
+                    except (TypeError, AssertionError, KeyError, AttributeError):
+                        pass
+            signers = []
         for i in signers:
             if i < len(self.keys) and isinstance(doc.get("signatures"), dict):
                 s = self.calls.raw("sign_signable", doc, self.keys.priv[i])
@@ -653,6 +674,26 @@ class CliWorld(ChainWorld):
         elif not accepted and success_line:
             self.run.violate(("C17",), "rejected-but-success-line", "library rejects (%s) but a success line was printed" % why,
                              "rejected-but-success-line:" + op["entry"])
+
+    def op_cli_cross(self, op):
+        """Directed pair for verify-metadata: the trusted file is a key_mgr document delegating the named roles to one key; the
+        untrusted file declares some type and is signed (raw or OpenPGP style) by that key or by another.  Whatever the pair, status 0
+        only if the library's verifier for the declared type accepts it."""
+        k, other = op["key"], op["other"]
+        T = self._mk_km_doc({"keys": [k], "signers": "head", "version": 1, "also_delegates": op["roles"]})
+        spec = {"keys": [k], "signers": [k if op["signer"] == "delegated" else other], "version": op["u_version"], "style": op["style"]}
+        if op["u_type"] == "root":
+            spec["root_like"] = True
+        elif op["u_type"] != "key_mgr":
+            spec["mods"] = [["type", op["u_type"]]]
+        U = self._mk_km_doc(spec)
+        if T is None or U is None:
+            return self.run.ev("noop")
+        self.kms += [T, U]
+        self.km_kinds += ["cross_trusted", "cross_untrusted"]
+        self.run.probe("cli_cross_pair")
+        self.op_cli_verify({"op": "cli_verify", "t": ["km", len(self.kms) - 2], "u": ["km", len(self.kms) - 1], "entry": op["entry"], "cfg": op["cfg"],
+                            "tfmt": "canon", "ufmt": "canon"})
 
     def _oracle_docs(self, t, u):
         try:
@@ -892,6 +933,15 @@ class CliWorld(ChainWorld):
                 t, u = ["chain", i], ["chain", i + 1]
             elif rng.random() < 0.4 and self.kms:
                 t, u = ["chain", len(self.honest_chain) - 1], ["km", rng.randrange(len(self.kms))]
+                if rng.random() < 0.3 and len(self.kms) > 1:
+                    # a trusted document that is not root metadata (a key_mgr file given as the trusted one), any document under it
+                    t = ["km", rng.randrange(len(self.kms))]
+                    rr = [i for i, k in enumerate(self.km_kinds) if k == "root_raw"]
+                    if rr and rng.random() < 0.7:
+                        u = ["km", rng.choice(rr)]
+                        dr = [i for i, k in enumerate(self.km_kinds) if k == "delegates_root"]
+                        if dr and rng.random() < 0.8:
+                            t = ["km", rng.choice(dr)]
             else:
                 u = rng.choice(us)
             op = {"op": "cli_verify", "t": t, "u": u, "entry": rng.choice(ENTRIES), "cfg": cfg,
@@ -909,6 +959,11 @@ class CliWorld(ChainWorld):
                 elif self.crafted:
                     op["decoy"] = ["crafted", rng.randrange(len(self.crafted))]
             return op
+        if r < 0.47:
+            a, b = rng.sample(range(nk), 2) if nk >= 2 else (0, 0)
+            return {"op": "cli_cross", "key": a, "other": b, "roles": rng.choice([["root"], ["root", "key_mgr"], ["key_mgr"], []]),
+                    "u_type": rng.choice(["root", "root", "key_mgr", "pkg_mgr"]), "u_version": rng.choice([1, 2, 5]), "style": rng.choice(["raw", "raw", "pgp"]),
+                    "signer": rng.choice(["delegated", "delegated", "other"]), "entry": rng.choice(ENTRIES), "cfg": cfg}
         if r < 0.52:
             return {"op": "cli_toctou", "at": rng.choice([2, 2, 3, 1]),
                     "directed": {"a_signed": rng.random() < 0.5, "a_edited": rng.random() < 0.7, "b_type": rng.choice(["root", "root", "pkg_mgr", "key_mgr"]),
@@ -942,8 +997,24 @@ class CliWorld(ChainWorld):
         if r < 0.74:
             head = self.head["signed"]["delegations"].get("key_mgr", {}).get("pubkeys", [])
             idx = [self.keys.pub.index(p) for p in head if p in self.keys.pub] or [0]
-            kind = rng.choice(["honest", "honest", "unsigned", "wrong_signer", "type_root", "edited", "junk", "malformed_other_type"])
+            kind = rng.choice(["honest", "honest", "unsigned", "wrong_signer", "type_root", "edited", "junk", "malformed_other_type",
+                               "pgp_signed", "pgp_signed", "delegates_root", "root_raw"])
             op = {"op": "mk_km", "keys": [rng.randrange(nk)], "t": 1, "signers": idx, "version": rng.choice([1, 2]), "kind": kind}
+            if kind == "pgp_signed":
+                op["style"] = "pgp"
+            elif kind == "delegates_root":
+                op["also_delegates"] = rng.choice([["root"], ["root", "key_mgr"], ["key_mgr"]])
+            elif kind == "root_raw":
+                # type root, raw signatures by the keys some key_mgr document lists (or by the head's key_mgr keys)
+                op["root_like"] = True
+                op["version"] = rng.choice([1, 2, 3, 7])
+                if self.kms and rng.random() < 0.7:
+                    j = rng.randrange(len(self.kms))
+                    try:
+                        pubs = self.kms[j]["signed"]["delegations"]["pkg_mgr"]["pubkeys"]
+                        op["signers"] = [self.keys.pub.index(p) for p in pubs if p in self.keys.pub] or idx
+                    except (KeyError, TypeError, AttributeError):
+                        pass
             if kind == "unsigned":
                 op["signers"] = []
             elif kind == "wrong_signer":
